@@ -1377,12 +1377,12 @@ fn all(args: &Args) {
         cases.push(run_linear("corpus", &ops));
     }
     let n_corpus = cases.len();
-    let (depth, cap) = if quick { (3, 20) } else { (4, 250) };
+    let (depth, cap) = if quick { (3, 20) } else { (4, 150) };
     let depth = args.rest.iter().position(|a| a == "--depth").map(|i| args.rest[i + 1].parse().unwrap()).unwrap_or(depth);
     let cap = args.rest.iter().position(|a| a == "--cap").map(|i| args.rest[i + 1].parse().unwrap()).unwrap_or(cap);
     let exh = exhaustive(&args.tier, depth, cap, args.seed, &mut cases);
     // all sequences over the small alphabet, no cap
-    let mini_depth = args.rest.iter().position(|a| a == "--mini").map(|i| args.rest[i + 1].parse().unwrap()).unwrap_or(if quick { 3 } else { 5 });
+    let mini_depth = args.rest.iter().position(|a| a == "--mini").map(|i| args.rest[i + 1].parse().unwrap()).unwrap_or(if quick { 3 } else { 4 });
     let mini = exhaustive("mini", mini_depth, usize::MAX, args.seed, &mut cases);
     let n_exh = cases.len() - n_corpus;
     let mut rng = Rng::new(args.seed ^ 0x16c);
